@@ -157,11 +157,75 @@ CONFIG = {
             "typed-list remove is unexported (unreachable) and the Sort() stubs of four list types return nothing: neither is checked",
         ],
     },
+    "C09": {
+        "level": "exploration",
+        "rule": "C09: one generated operation history per case for each of the 13 linked map/set types over every public method, against a slice-ordered dictionary model with bound and put modes; full enumerations compared after every step.",
+        "groups": [G("c09", shards={"quick": 4, "thorough": 16}, timeout={"quick": 400, "thorough": 3000})],
+        "assumptions": [
+            "single goroutine; capacity >= 1 where the constructor has no guard (capacity 0 only for IntKey and LongLong), capacity <= 200, load factor in {0.1..4}",
+            "comparators are strict total orders; interface values are non-nil ints or strings; floats contain no NaN",
+            "enumerators are consumed only up to the end and not across mutations; first/last on an empty structure must only not panic",
+            "'no value' means NONE or 0 for numeric APIs and nil, \"\" or 0 for interface APIs",
+            "StringIntLinkedMap/StringLongLinkedMap treat \"\" as the null key (explicit guard at the top of put/add, consistent across their methods): the model ignores it for these two types",
+            "sort = collect, sort, clear, re-insert: with a bound lowered below the current size a sort keeps the last max entries of the sorted order",
+        ],
+    },
+    "C14": {
+        "level": "exploration",
+        "rule": "C14: HyperLogLog against an independent register model (bytes, Offer result, estimator), order/duplicate/merge laws, rebuild, accuracy envelope; RegisterSet against a byte-array model.",
+        "groups": [G("c14", shards={"quick": 4, "thorough": 16}, timeout={"quick": 300, "thorough": 1800})],
+        "assumptions": [
+            "precision 4..16; only counters of equal precision are merged; RegisterSet values are 0..31",
+            "the accuracy envelope max(3, 12*1.04/sqrt(m)*n, 0.06n) (small sets: Chernoff bound on hash collisions) applies only to items not chosen by their hash (random or consecutive integers); crafted/strided items get the exact-model checks only",
+            "offerHashedLong/clz64 are unreachable from the exported API and not exercised",
+        ],
+    },
+    "C15": {
+        "level": "exploration",
+        "rule": "C15: hashes against independently generated references (all byte strings of length 0..2 exhaustively, random to 4 KiB, frozen vectors), hexa32/bitutil/iputil inverses with exhaustive sweeps.",
+        "groups": [G("c15", shards={"quick": 4, "thorough": 16}, timeout={"quick": 300, "thorough": 3600})],
+        "assumptions": [
+            "murmur byte hashes take bytes as unsigned and use the stream-lib tail layout (the values are pinned by frozen vectors recorded from the pinned tree)",
+            "the length argument of MurmurHashLongByte satisfies 0 <= length <= len",
+            "hexa32's inverse direction covers canonical lowercase texts; iputil is checked on 4-byte addresses and dotted-quad text",
+            "the Hash64v2 reference restates the update rule (no external specification); independence comes from the generated table, the two-lane formulation and the frozen vectors",
+        ],
+    },
+    "C19": {
+        "level": "exploration",
+        "rule": "C19: calendar helpers for every day 2000-01-01..2099-12-31 at boundary offsets (exhaustive) and random instants against time.UnixMilli(t).UTC(); DateFormat round trips over generated patterns.",
+        "groups": [G("c19", shards={"quick": 4, "thorough": 16}, timeout={"quick": 300, "thorough": 1800}, env={"TZ": "UTC"})],
+        "assumptions": [
+            "instants lie in 2000-01-01..2099-12-31 UTC; the helpers use the fixed UTC table regardless of TZ",
+            "DateFormat patterns have all or none of y/m/d and at least one field; Parse uses time.Local, pinned to UTC; fields absent from a pattern are not compared (Parse fills them from the wall clock)",
+            "weekday is compared by index in the library's own Mon..Sun vocabulary",
+        ],
+    },
 }
 
 NOT_APPLICABLE = {}
 
 MANIFEST_TEXT = {
+    "C09": {
+        "technique": "stateful (model-based) property-based testing: generated operation histories over every public method of 13 types against a bounded insertion-ordered dictionary model, invariant after every step",
+        "level_text": "Generated-history exploration: per type hundreds (quick) to 30000 (thorough) histories of up to 400 operations with keys chosen to collide, cross table growth, hit evictions, sort after removal; after every step the return value, size, first/last and the complete key/value/entry enumerations are compared with the model.",
+        "level_note": "At most ~420 entries (three growths of a default table). Hang detection is CPU/stack based, not wall-clock based.",
+    },
+    "C14": {
+        "technique": "property-based testing against an exact reference model (registers, serialisation, estimator) plus metamorphic relations (permutation, duplication, merge = union, rebuild)",
+        "level_text": "Generated-input exploration: item multisets over all precisions and both offer paths; bytes, Offer results and Cardinality compared exactly with an independent model, merge laws checked in both orders, accuracy sanity envelope.",
+        "level_note": "The estimator reference follows the HyperLogLog paper; accuracy is only a gross-error guard.",
+    },
+    "C15": {
+        "technique": "exhaustive sweeps of small domains + property-based testing against independent reference implementations; frozen golden vectors",
+        "level_text": "Exhaustive for all byte strings of length <= 2, 16-bit (and in the thorough tier 32-bit) integer domains and all 2^32 IPv4 addresses; random exploration beyond; every hash pinned by frozen vectors.",
+        "level_note": "References are written from the algorithms the code documents it ports; frozen vectors were recorded once from the pinned tree.",
+    },
+    "C19": {
+        "technique": "exhaustive enumeration of all 36525 days x boundary offsets + property-based testing of random instants against the standard library calendar; round-trip oracle for the pattern formatter",
+        "level_text": "Exhaustive over every day of the century at ten intra-day boundary offsets, random instants beyond, all against time.UnixMilli(t).UTC(); unit functions checked as monotone step functions at every boundary.",
+        "level_note": "Trusts Go's time package as the proleptic Gregorian reference.",
+    },
     "C11": {
         "technique": "stateful property-based testing against a slice+capacity model with callback recording; generated concurrent producer/consumer scenarios with exactly-once/order accounting, lost-wake-up watchdog and race detector",
         "level_text": "Generated-history exploration: thousands of sequential histories over every queue operation (return values, Failed/Overflowed arguments, content after every step) and thousands of concurrent scenarios (1-4 producers, 1-4 consumers incl. consumers parked before the first put, bounded/unbounded, mixed put/put-force) judged by accounting that is sound under any schedule; the concurrent sub-checks are repeated under -race.",
